@@ -213,7 +213,7 @@ pub fn block_shape(rng: &mut Rng, slot: u64) -> (Vec<SliceSpec>, &'static str) {
     let k = rng.range(1, 5);
     let p0 = (slot - 1 - rng.below(slot.min(2)), rng.range(1, 3));
     let mut specs: Vec<SliceSpec> = (0..k).map(|i| SliceSpec { idx: i, last: i + 1 == k, parent: if i == 0 { Some(p0) } else { None }, txs_ok: true, salt: rng.next() }).collect();
-    let shape = match rng.below(17) {
+    let shape = match rng.below(18) {
         0..=4 => "honest",
         5 => { if k > 1 { let i = rng.range(1, k - 1) as usize; specs[i].parent = Some((p0.0.saturating_sub(1), 7)); } "honest-handover" }
         6 => { specs[0].parent = None; "first-slice-without-parent" }
@@ -223,7 +223,7 @@ pub fn block_shape(rng: &mut Rng, slot: u64) -> (Vec<SliceSpec>, &'static str) {
         10 => { specs[0].parent = Some((slot + rng.below(2), 3)); "parent-not-in-earlier-slot" }
         11 => { // conflicting slice: same index signed twice
                 let i = rng.below(k) as usize; let mut c = specs[i].clone(); c.salt = rng.next(); specs.push(c); "conflicting-slice" }
-        12 => { // contradictory last markers: an extra slice beyond the last / a second last
+        12 | 16 => { // contradictory last markers: an extra slice beyond the last / a second last
                 if rng.chance(1, 2) { specs.push(SliceSpec { idx: k, last: false, parent: None, txs_ok: true, salt: rng.next() }); "non-last-slice-beyond-last" }
                 else { specs.push(SliceSpec { idx: k, last: true, parent: None, txs_ok: true, salt: rng.next() }); "second-last-slice" } }
         13 => { // a conflicting version of a slice that shows up only after the block is complete
@@ -256,6 +256,19 @@ pub fn deliveries(rng: &mut Rng, built: &[BuiltSlice], shape: &str) -> Vec<Deliv
         1 => rng.shuffle(&mut dels),              // fully interleaved
         2 => { let n = dels.len(); for _ in 0..n / 4 { let i = rng.below(n as u64) as usize; let j = rng.below(n as u64) as usize; dels.swap(i, j); } }
         _ => { dels.reverse(); }
+    }
+    if shape == "non-last-slice-beyond-last" && rng.chance(2, 3) {
+        // a FEW (not yet reconstructable) shreds of the slice beyond the declared last slice arrive before anything else
+        let si = built.len() - 1;
+        dels.retain(|d| !matches!(d, Deliver::Dissem(s, _, _) if *s == si));
+        let mut idxs: Vec<usize> = (0..TOTAL_SHREDS).collect();
+        rng.shuffle(&mut idxs);
+        let first = rng.range(1, 31) as usize;
+        let mut front: Vec<Deliver> = idxs.iter().take(first).map(|&k| Deliver::Dissem(si, k, false)).collect();
+        front.extend(dels.drain(..));
+        dels = front;
+        // ... and sometimes more of them later
+        if rng.chance(1, 2) { for &k in idxs.iter().skip(first).take(rng.range(1, 33) as usize) { dels.push(Deliver::Dissem(si, k, false)); } }
     }
     if shape == "late-conflicting-slice" {
         // the complete block first (every slice gets at least 32 shreds above), then shreds of the other version
